@@ -144,7 +144,7 @@ Definition undemanded (k : cname) : bool :=
 Definition surely_faulting (l : leafsrc) : bool :=
   match l with
   | LFault FValue => false
-  | LFault (FRecThrough _ _ _ _) | LFault (FRecMixed _ _ _ _ _) => false
+  | LFault (FRecThrough _ _ _ _) | LFault (FRecMixed _ _ _ _ _) | LFault (FDeepData _ _) => false
       (* bounded recursion: a value when the guard does not count the levels *)
   | LFault _ => true
   | _ => false
